@@ -4,6 +4,7 @@ package main
 
 import (
 	"go/token"
+	"strings"
 	"go/types"
 
 	"golang.org/x/tools/go/ssa"
@@ -94,13 +95,76 @@ func isParamValue(v ssa.Value, p *ssa.Parameter) bool {
 	return false
 }
 
+// paramNamed finds a parameter of fn by its role. The role is the parameter's
+// name on the pinned tree; because parameter names can be changed freely without
+// changing behaviour, a renamed parameter is found through a second
+// description of the same role: its (unique) type, or its position.
 func paramNamed(fn *ssa.Function, name string) *ssa.Parameter {
+	if fn == nil {
+		return nil
+	}
 	for _, p := range fn.Params {
 		if p.Name() == name {
 			return p
 		}
 	}
+	spec, ok := paramRoles[name]
+	if !ok {
+		return nil
+	}
+	if spec.typeSuffix != "" {
+		var found *ssa.Parameter
+		n := 0
+		for i, p := range fn.Params {
+			if i == 0 && fn.Signature.Recv() != nil {
+				continue
+			}
+			ts := p.Type().String()
+			for _, suf := range strings.Split(spec.typeSuffix, "|") {
+				if ts == suf || strings.HasSuffix(ts, "."+suf) || strings.HasSuffix(ts, "/"+suf) {
+					found = p
+					n++
+					break
+				}
+			}
+		}
+		if n == 1 {
+			return found
+		}
+		if n > 1 && spec.pos == 0 {
+			return nil
+		}
+	}
+	if spec.pos != 0 {
+		ps := fn.Params
+		if fn.Signature.Recv() != nil {
+			ps = ps[1:]
+		}
+		i := spec.pos - 1
+		if spec.pos < 0 {
+			i = len(ps) + spec.pos
+		}
+		if i >= 0 && i < len(ps) {
+			return ps[i]
+		}
+	}
 	return nil
+}
+
+type paramRole struct {
+	typeSuffix string // unique parameter type ("a|b" alternatives), receiver excluded
+	pos        int    // 1-based position among the non-receiver parameters; negative counts from the end; 0 = unused
+}
+
+var paramRoles = map[string]paramRole{
+	"pteLevel": {"uint8", 1}, "pte": {"*pageTableEntry|*github.com/ProjectSerenity/firefly/kernel/mm/vmm.pageTableEntry", 2},
+	"frame": {"mm.Frame|Frame", 0}, "flags": {"PageTableEntryFlag", 0}, "page": {"mm.Page|Page", 0},
+	"size": {"uintptr", 0}, "argType": {"pArgType", 0}, "objIndex": {"uint32", 1}, "opcode": {"uint16", 1},
+	"index": {"uint32", 1}, "scopeIndex": {"uint32", 1}, "expr": {"[]byte|[]uint8", 2},
+	"v": {"interface{}|any", 2}, "padLen": {"", -1}, "args": {"[]interface{}|[]any", -1},
+	"i": {"", 1}, "j": {"", 2}, "lines": {"uint32", 2}, "path": {"string", 1},
+	"b": {"byte|uint8", 1}, "withCR": {"bool", 1}, "newState": {"State", 1},
+	"obj": {"", 1}, "arg": {"", 2}, "nextTo": {"", 3}, "tagType": {"tagType", 1},
 }
 
 // maskTest: v is `x & mask` (either order) with constant mask; returns x.
